@@ -52,10 +52,15 @@ def nodupNat : List Nat → Bool
   | [] => true
   | x :: xs => !xs.contains x && nodupNat xs
 
-/-- C01's invariant on the model. -/
+/-- C01's invariant on the model (a state between two calls: nothing is in flight). -/
 def Forest.wf (f : Forest) : Bool :=
   f.roots.all Tree.okRoot && nodupNat f.ids && f.roots.all Tree.shapeOk &&
-    f.ids.all (fun i => decide (i < f.nextId)) && !f.aliased
+    f.ids.all (fun i => decide (i < f.nextId)) && !f.aliased && f.pool.isEmpty
+
+/-- the part of the invariant that is about the representation only (no beliefs): node ids are
+distinct and below the counter, payload keys are well-shaped, nothing is in flight. -/
+def Forest.repOk (f : Forest) : Bool :=
+  nodupNat f.ids && f.roots.all Tree.shapeOk && f.ids.all (fun i => decide (i < f.nextId)) && f.pool.isEmpty
 
 /-! ### Admissibility -/
 
@@ -72,6 +77,31 @@ mutual
     | [] => []
     | (_, v) :: r => v.refs ++ refsItems r
 end
+
+mutual
+  /-- the keys of a dict literal are distinct (a Python dict display cannot say anything else). -/
+  def VE.keysDistinct : VE → Bool
+    | .node kind _ _ _ items =>
+      (match kind with
+       | .dict => nodupKeys (items.map (·.1))
+       | _ => true) && keysDistinctItems items
+    | .typedList items => keysDistinctItems items
+    | _ => true
+  def keysDistinctItems : List (Key × VE) → Bool
+    | [] => true
+    | (_, v) :: r => v.keysDistinct && keysDistinctItems r
+end
+
+/-- the values an operation offers. -/
+def Op.values : Op → List VE
+  | .new v | .setItem _ _ v | .lAppend _ v | .lInsert _ _ v | .dSetDefault _ _ v => [v]
+  | .lExtend _ vs | .lSetSlice _ _ _ _ vs => vs
+  | .dUpdate _ kvs => kvs.map (·.2)
+  | .rebind _ pairs _ => pairs.map (·.2.2)
+  | _ => []
+
+/-- well-formedness of the *encoding* of a call: dict literals have distinct keys. -/
+def wellKeyed (op : Op) : Bool := op.values.all VE.keysDistinct
 
 def Op.target? : Op → Option Nat
   | .new _ => none
@@ -143,5 +173,68 @@ def Admissible (cfg : Cfg) (f : Forest) (notifyOn : Bool) (op : Op) : Bool :=
 /-- the step used by driver and theorems: inadmissible-by-divergence calls have no after-state. -/
 def stepA (cfg : Cfg) (f : Forest) (notifyOn : Bool) (op : Op) : Res :=
   if divergent f op then ⟨f, .diverges⟩ else stepN cfg f notifyOn op
+
+/-! ### Clone equality and flag agreement (C07) -/
+
+mutual
+  /-- `pg.eq` of an original and its clone: same kinds, same keys, same leaves; non-symbolic leaf
+  objects (and the elements of tuples): the same object (shallow) or any object (deep). -/
+  def Tree.symEq (deep : Bool) : Tree → Tree → Bool
+    | .leaf (.opaque i), .leaf (.opaque j) => deep || i == j
+    | .leaf (.tup a), .leaf (.tup b) => if deep then a.length == b.length else a == b
+    | .leaf a, .leaf b => a == b
+    | .node m its, .node m' its' => m.kind == m'.kind && symEqItems deep its its'
+    | _, _ => false
+  def symEqItems (deep : Bool) : Items → Items → Bool
+    | [], [] => true
+    | (k, c) :: r, (k', c') :: r' => k == k' && c.symEq deep c' && symEqItems deep r r'
+    | _, _ => false
+end
+
+mutual
+  /-- `sealed` and `accessor_writable` agree at every node (of two trees of the same shape). -/
+  def Tree.flagsEq : Tree → Tree → Bool
+    | .leaf _, .leaf _ => true
+    | .node m its, .node m' its' => m.sealed == m'.sealed && m.accW == m'.accW && flagsEqItems its its'
+    | _, _ => false
+  def flagsEqItems : Items → Items → Bool
+    | [], [] => true
+    | (_, c) :: r, (_, c') :: r' => c.flagsEq c' && flagsEqItems r r'
+    | _, _ => false
+end
+
+mutual
+  /-- the seal marks of a tree are what a clone reproduces: a node is sealed exactly when its
+  clone is constructed sealed (`cloneSealed`) or a node above it is (`anc`) — the constructors
+  seal recursively. Fails for a sealed `pg.Ref` (F92), for an unsealed node below a sealed one
+  (F93) and, unpatched, for a sealed list (F17). -/
+  def Tree.sealFaithful (cfg : Cfg) (anc : Bool) : Tree → Bool
+    | .leaf _ => true
+    | .node m its => m.sealed == (anc || cloneSealed cfg m) && sealFaithfulItems cfg (anc || cloneSealed cfg m) its
+  def sealFaithfulItems (cfg : Cfg) (anc : Bool) : Items → Bool
+    | [] => true
+    | (_, c) :: r => c.sealFaithful cfg anc && sealFaithfulItems cfg anc r
+end
+
+mutual
+  /-- no payload holds a MISSING placeholder (lists drop them while copying). -/
+  def Tree.noMissing : Tree → Bool
+    | .leaf _ => true
+    | .node _ its => noMissingItems its
+  def noMissingItems : Items → Bool
+    | [] => true
+    | (_, c) :: r => !c.isMissing && c.noMissing && noMissingItems r
+end
+
+/-- the in-place mutators that offer no value (non-interference, C07). -/
+def Quiet : Op → Bool
+  | .lReverse _ | .lSort _ _ _ | .lClear _ | .dClear _ | .dPopItem _ | .delItem _ _ | .lPop _ _ | .lRemove _ _
+  | .dPop _ _ | .lDelSlice _ _ _ _ | .setSeal _ _ => true
+  | _ => false
+
+/-- a history: calls with the state of `notify_on_change` they run under. -/
+def runHist (cfg : Cfg) (f : Forest) : List (Bool × Op) → Forest
+  | [] => f
+  | (n, op) :: rest => runHist cfg (stepA cfg f n op).forest rest
 
 end Pg.Sym
